@@ -148,6 +148,11 @@ def judge (prop : String) (j : Json) : R Verdict := do
   let mut spec : List String := []
   let mut tags : List String := [gen]
   let key := fnv input
+  let cls := ((fieldD obs "class_tags").getArr?.toOption.getD #[]).toList.filterMap (·.getStr?.toOption)
+  tags := tags ++ cls.map ("class:" ++ ·)
+  if hasKey obs "abort" then
+    if prop == "C12" then spec := spec ++ ["no-panic:abort"]
+    return { i, corr, spec, nt := true, key, tags := tags ++ ["abort"] }
   if hasKey obs "timeout" then
     if prop == "C12" then spec := spec ++ ["terminates"]
     return { i, corr, spec, nt := true, key, tags := tags ++ ["timeout"] }
